@@ -290,6 +290,19 @@ pub mod verif_hooks {
     pub fn read_depfile(path: &std::path::Path) -> anyhow::Result<Vec<String>> {
         super::read_depfile(path)
     }
+    /// run_task with the last-line callback's arguments collected
+    pub fn run_task(
+        cmdline: &str,
+        depfile: Option<&std::path::Path>,
+        parse_showincludes: bool,
+        rspfile: Option<&super::RspFile>,
+    ) -> (anyhow::Result<super::TaskResult>, Vec<Vec<u8>>) {
+        let mut lines = Vec::new();
+        let r = super::run_task(cmdline, depfile, parse_showincludes, rspfile, |l| {
+            lines.push(l.to_vec())
+        });
+        (r, lines)
+    }
 }
 
 #[cfg(test)]
